@@ -1,0 +1,138 @@
+// Copyright ©2024 The Gonum Authors. All rights reserved.
+// Use of this source code is governed by a BSD-style
+// license that can be found in the LICENSE file.
+
+//go:build verif
+
+package multi
+
+import (
+	"fmt"
+
+	"gonum.org/v1/gonum/graph"
+	"gonum.org/v1/gonum/graph/set/uid"
+)
+
+// This file holds structural invariant checks of the multigraph types. It
+// exists only with the verif build tag and is used by the runtime monitors
+// in /verif at quiescent points of mutation histories.
+
+type verifLine interface {
+	From() graph.Node
+	To() graph.Node
+	ID() int64
+}
+
+func verifNodes(nodes map[int64]graph.Node, ids *uid.Set) error {
+	live := make(map[int64]bool, len(nodes))
+	for id, n := range nodes {
+		if n == nil {
+			return fmt.Errorf("nil node stored under ID %d", id)
+		}
+		if n.ID() != id {
+			return fmt.Errorf("node with ID %d stored under ID %d", n.ID(), id)
+		}
+		live[id] = true
+	}
+	return ids.VerifCheck(live, true)
+}
+
+// verifMirror checks that every line a[u][v][id] has endpoints in nodes, joins
+// u and v, carries the ID it is stored under, is mirrored in b[v][u][id], that
+// no innermost map is empty (an empty one would be reported as a neighbour)
+// and that the live line IDs are marked used in lineIDs.
+func verifMirror[L verifLine](what string, nodes map[int64]graph.Node, a, b map[int64]map[int64]map[int64]L, lineIDs map[int64]map[int64]*uid.Set, directed, aIsFrom bool) error {
+	for u, m := range a {
+		if _, ok := nodes[u]; !ok {
+			return fmt.Errorf("%s has an entry for node %d which is not in the graph", what, u)
+		}
+		for v, lines := range m {
+			if _, ok := nodes[v]; !ok {
+				return fmt.Errorf("%s[%d] has an entry for node %d which is not in the graph", what, u, v)
+			}
+			if len(lines) == 0 {
+				return fmt.Errorf("%s[%d][%d] is an empty line set", what, u, v)
+			}
+			live := make(map[int64]bool, len(lines))
+			for id, l := range lines {
+				live[id] = true
+				if l.ID() != id {
+					return fmt.Errorf("%s[%d][%d][%d] holds line with ID %d", what, u, v, id, l.ID())
+				}
+				f, t := l.From().ID(), l.To().ID()
+				if directed {
+					wf, wt := u, v
+					if !aIsFrom {
+						wf, wt = v, u
+					}
+					if f != wf || t != wt {
+						return fmt.Errorf("%s[%d][%d][%d] holds line %d->%d", what, u, v, id, f, t)
+					}
+				} else if !(f == u && t == v) && !(f == v && t == u) {
+					return fmt.Errorf("%s[%d][%d][%d] holds line %d-%d", what, u, v, id, f, t)
+				}
+				o, ok := b[v][u][id]
+				if !ok {
+					return fmt.Errorf("%s[%d][%d][%d] has no mirror entry", what, u, v, id)
+				}
+				if o.From().ID() != f || o.To().ID() != t {
+					return fmt.Errorf("%s[%d][%d][%d] and its mirror hold different lines", what, u, v, id)
+				}
+			}
+			x, y := u, v
+			if directed {
+				if !aIsFrom {
+					x, y = v, u
+				}
+			} else if y < x {
+				x, y = y, x
+			}
+			ids := lineIDs[x][y]
+			if ids == nil {
+				return fmt.Errorf("%s[%d][%d] holds lines but there is no line ID set for the pair", what, u, v)
+			}
+			if err := ids.VerifCheck(live, false); err != nil {
+				return fmt.Errorf("%s[%d][%d]: %v", what, u, v, err)
+			}
+		}
+	}
+	return nil
+}
+
+// VerifInvariants checks the internal consistency of g.
+func (g *DirectedGraph) VerifInvariants() error {
+	if err := verifNodes(g.nodes, g.nodeIDs); err != nil {
+		return err
+	}
+	if err := verifMirror("from", g.nodes, g.from, g.to, g.lineIDs, true, true); err != nil {
+		return err
+	}
+	return verifMirror("to", g.nodes, g.to, g.from, g.lineIDs, true, false)
+}
+
+// VerifInvariants checks the internal consistency of g.
+func (g *WeightedDirectedGraph) VerifInvariants() error {
+	if err := verifNodes(g.nodes, g.nodeIDs); err != nil {
+		return err
+	}
+	if err := verifMirror("from", g.nodes, g.from, g.to, g.lineIDs, true, true); err != nil {
+		return err
+	}
+	return verifMirror("to", g.nodes, g.to, g.from, g.lineIDs, true, false)
+}
+
+// VerifInvariants checks the internal consistency of g.
+func (g *UndirectedGraph) VerifInvariants() error {
+	if err := verifNodes(g.nodes, g.nodeIDs); err != nil {
+		return err
+	}
+	return verifMirror("lines", g.nodes, g.lines, g.lines, g.lineIDs, false, true)
+}
+
+// VerifInvariants checks the internal consistency of g.
+func (g *WeightedUndirectedGraph) VerifInvariants() error {
+	if err := verifNodes(g.nodes, g.nodeIDs); err != nil {
+		return err
+	}
+	return verifMirror("lines", g.nodes, g.lines, g.lines, g.lineIDs, false, true)
+}
